@@ -294,6 +294,7 @@ type edgeIn struct {
 type exitInfo struct {
 	st      *State
 	results []Term
+	pos     token.Pos // of the return statement
 }
 
 func (vc *VC) newFrame(fn *ssa.Function, parent *Frame) *Frame {
@@ -365,7 +366,7 @@ func (vc *VC) encodeBody(fr *Frame, st *State) *exitInfo {
 				for _, r := range t.Results {
 					rs = append(rs, vc.val(fr, r))
 				}
-				exits = append(exits, &exitInfo{st: cur, results: rs})
+				exits = append(exits, &exitInfo{st: cur, results: rs, pos: t.Pos()})
 				alive = false
 			case *ssa.Panic:
 				if !vc.mayPanic(fr) {
